@@ -333,7 +333,7 @@ def breakdown(js):
 
 
 MISSING_METHOD = re.compile(r"no method named `(\w+)` found for (?:struct|enum|reference|mutable reference|type) `&?(?:mut )?(?:[\w:]*::)?(\w+)")
-MISSING_FN = re.compile(r"cannot find function `(\w+)` in this scope")
+MISSING_FN = re.compile(r"cannot find (?:function `(\w+)`|value `([a-z_]\w*)`) in this scope")
 MISSING_VALUE = re.compile(r"cannot find value `([A-Z][A-Z0-9_]*)` in this scope")
 
 
@@ -356,20 +356,26 @@ def find_missing_callees(diags, regions):
             m3 = MISSING_VALUE.search(msg)
             if m3:
                 # a constant introduced by the change: extract its definition verbatim
+                found_const = False
                 for rel in files:
                     try:
                         extract.find_item(extract.load_source(rel), 'const', m3.group(1))
                         ent = ('#const', m3.group(1), rel, '')
                         if ent not in out:
                             out.append(ent)
+                        found_const = True
                         break
                     except extract.LostAnchor:
                         continue
-                continue
-            m2 = MISSING_FN.search(msg)
-            if not m2:
-                continue
-            owner, fname = '', m2.group(1)
+                if found_const:
+                    continue
+                # not a constant: a helper function used as a value (`.map(helper)`, `.find_map(helper)`)
+                owner, fname = '', m3.group(1)
+            else:
+                m2 = MISSING_FN.search(msg)
+                if not m2:
+                    continue
+                owner, fname = '', (m2.group(1) or m2.group(2))
         src_owner = owner
         search = files
         if owner in alias:
